@@ -32,6 +32,62 @@ CHECKS = {
         "level_note": "trusts the reference interpreter (harness/ref); same-block redefinition of a name is not generated (not valid Soy)",
         "assumptions": ["unspecified cells are excluded and counted as in C01"],
     },
+    "C03": {
+        "test": "TestC03", "level": "exploration", "crashy": True,
+        "quick": {"shards": 8, "checks": 5000, "timeout": 900},
+        "thorough": {"shards": 16, "checks": 60000, "timeout": 3400},
+        "exhaustive_key": "exhaustive_grid_cases",
+        "exhaustive_note": "shard 0 enumerates every single byte and every pair/triple of the five specials x 9 carriers x 4 mode classes x 5 chains (quick: a deterministic third of that grid); the random part is not exhaustive",
+        "rule": "a value (strings over a weighted alphabet incl. the five specials, every byte, multi-byte and astral runes, long runs; ints, floats, "
+                "bools, null, lists and maps holding such strings) printed between sentinels through a carrier (print, let content, param content, "
+                "param value, data=all, data=$map, two calls deep, msg placeholder, re-printed let) under namespace x template x callee-namespace x "
+                "callee-template autoescape attributes and a directive chain of length 0-3; non-trivial = the value's text contains a special "
+                "character and the effective mode/chain is escaping",
+        "technique": "property-based testing (rapid) with an invariant + decoder oracle on the framed output (no raw specials, every & starts a reference, decodes to the value) plus the exact reference model; exhaustive byte/pair/triple tier",
+        "level_text": PBT + "the escaping invariant is checked on the implementation's own bytes with an independent decoder, and the whole output against the reference interpreter",
+        "level_note": "trusts the decoder (9 reference spellings) and the effective-mode rule (namespace default, template override, callee's own mode)",
+        "assumptions": ["NUL through escapeHtml/changeNewlineToBr/insertWordBreaks is not judged (U+FFFD replacement is neither required nor forbidden by the statement)",
+                        "chains with two HTML-producing directives or truncate after one are not judged by the invariant"],
+    },
+    "C05": {
+        "test": "TestC05", "level": "exploration", "crashy": True,
+        "quick": {"shards": 8, "checks": 4000, "timeout": 900},
+        "thorough": {"shards": 16, "checks": 60000, "timeout": 3400},
+        "fuzz": [{"name": "FuzzParseFile", "time": "120s"}, {"name": "FuzzParseExpr", "time": "90s"}],
+        "exhaustive_key": "exhaustive_dictionary_inputs",
+        "exhaustive_note": "shard 0 enumerates every prefix of the repository's templates and every ordered pair of the ~200-fragment tag dictionary at file, template and nested-block level (closed and unclosed) and all pairs (thorough: triples) of the expression token dictionary",
+        "rule": "byte strings from six families: prefixes of repository and generated templates, tag-dictionary sequences at three nesting levels, "
+                "token deletions/duplications/swaps/replacements of valid files, random bytes incl. invalid UTF-8, expression-token sequences; "
+                "non-trivial = the input is rejected and contains a tag opener (files) / is rejected (expressions)",
+        "technique": "property-based testing and fuzzing (rapid + exhaustive dictionary sweep + go native fuzz): returns tree xor error, no panic, deterministic step bound, watchdog-confirmed non-return",
+        "level_text": PBT + "each input must return exactly one of tree/error without panic within a linear step bound; a non-return is confirmed in a fresh process",
+        "level_note": "step bound 12 steps/byte + 400 calibrated on the corpus (observed max 3/byte); scanner-goroutine crashes are attributed through the 'current case' file and confirmed by replay",
+        "assumptions": ["time proportional to the input is read as a linear bound on scanner+parser steps (hook, build tag verif)"],
+    },
+    "C12": {
+        "test": "TestC12", "level": "fault_enumeration",
+        "quick": {"shards": 8, "checks": 250, "timeout": 900},
+        "thorough": {"shards": 16, "checks": 4000, "timeout": 3400},
+        "rule": "for each generated program (whole command grammar, data satisfying the params) the fault-free run's W write calls and B bytes are "
+                "enumerated completely: a failing writer at every call index (dead and transient variants) and a short writer at every byte offset "
+                "(sampled above 2000 bytes); non-trivial = a program with a fault point that is neither the first nor the last write",
+        "technique": "fault injection enumerated per generated program (rapid generates the programs; every write index and byte offset is tried)",
+        "level_text": "exhaustive fault enumeration per program over generated programs: error surfaced, accepted bytes are a prefix, nil only if everything was accepted",
+        "level_note": "the fault-free output is the implementation's own (metamorphic); programs come from the C02 generator",
+        "assumptions": ["for a transient failure only the bytes accepted before the failure are required to be a prefix"],
+    },
+    "C18": {
+        "test": "TestC18", "level": "exploration", "crashy": True,
+        "quick": {"shards": 6, "checks": 250, "timeout": 900, "shrinktime": "30s"},
+        "thorough": {"shards": 16, "checks": 3000, "timeout": 3400, "shrinktime": "60s"},
+        "rule": "sequences of 1-30 (thorough 80) parses per case drawn from the C05 families plus complete expressions followed by trailing tokens, "
+                "through parse.SoyFile, parse.Expr and soy.ParseGlobals; non-trivial = the sequence has trailing tokens after a complete "
+                "expression or an error inside a quoted attribute expression",
+        "technique": "property-based testing (rapid) over parse histories with a goroutine-dump invariant (no scanner frame after a bounded settle)",
+        "level_text": PBT + "after each sequence the goroutine dump must contain no scanner frame beyond the baseline and the goroutine count must be back",
+        "level_note": "settle bound 2 s; a leaked scanner blocks forever on its channel so the bound cannot produce a false alarm unless the machine stalls a runnable goroutine for 2 s",
+        "assumptions": [],
+    },
     "C20": {
         "test": "TestC20", "level": "exploration",
         "quick": {"shards": 4, "checks": 4000, "timeout": 600},
